@@ -341,6 +341,20 @@ pub fn for_net(net: &Net, tier: Tier, idx: u64, st: &mut Stats) {
     st.states += 1;
     let n = net.n;
     let m = net.m();
+    // a connector of length zero (every fifth network; the first or the last edge): the distance does not change over
+    // it, its cost is the floor or its surcharge, and the sums along the route stay true
+    if m > 0 && idx % 5 == 0 {
+        let e = if idx % 2 == 0 { 0 } else { m - 1 };
+        let mut net0 = net.clone();
+        net0.edges[e].2 = 0.0;
+        // (distance worlds only: the speed model refuses a non-positive distance by design, see C09's guard)
+        // (and only where model and feature share the unit: across units the repository converts the running value there and
+        // back with seven-digit factors, which moves it by 4e-7 of itself even when nothing is added - DESIGN section 6)
+        for w0 in worlds(&net0, tier, idx).iter().filter(|w| w.turn.is_none() && matches!(w.trav, Trav::Distance { .. }) && w.tol() < 1e-6).take(3) {
+            check_case(w0, &Algo::Dijkstra, &Orient::Vertex { o: 0, d: Some(n - 1) }, false, st);
+            check_case(w0, &Algo::Dijkstra, &Orient::Vertex { o: 0, d: Some(n - 1) }, true, st);
+        }
+    }
     for w in worlds(net, tier, idx).iter() {
         for algo in algos(tier).iter() {
             check_case(
